@@ -69,3 +69,40 @@ func CRLFor(ca *gen.Cert, number int, serials ...string) []byte {
 	}
 	return der
 }
+
+// CDPWorld is one CRL distribution point served by an origin, with probe
+// certificates naming it.
+type CDPWorld struct {
+	Origin *Origin
+	PKI    *SimplePKI
+	Path   string
+	Number int
+	probes map[string][][]*x509.Certificate
+}
+
+// NewCDPWorld creates a distribution point at path on the origin.
+func NewCDPWorld(o *Origin, pki *SimplePKI, path string) *CDPWorld {
+	return &CDPWorld{Origin: o, PKI: pki, Path: path, probes: map[string][][]*x509.Certificate{}}
+}
+
+// URL is the distribution point URL.
+func (w *CDPWorld) URL() string { return w.Origin.URL(w.Path) }
+
+// Publish signs and serves a new CRL listing serials; returns its DER.
+func (w *CDPWorld) Publish(serials ...string) []byte {
+	w.Number++
+	der := w.PKI.CRL(w.Number, serials...)
+	w.Origin.Serve(w.Path, der)
+	return der
+}
+
+// Probe returns the verified chains of a leaf with the given serial naming this CDP.
+func (w *CDPWorld) Probe(serialHex string) [][]*x509.Certificate {
+	if ch, ok := w.probes[serialHex]; ok {
+		return ch
+	}
+	leaf := w.PKI.Leaf(serialHex, []string{w.URL()}, nil)
+	ch := w.PKI.ChainFor(leaf)
+	w.probes[serialHex] = ch
+	return ch
+}
